@@ -469,7 +469,22 @@ func runBDN(t *core.Tape, tier string, info *core.RunInfo) *core.Violation {
 				err = setBits(mask)
 			}
 		case 1:
-			if mask, err = bdn.NewMask(keyG, pubs, pubs[first]); err == nil {
+			// the own key may be ANY participant's (seed C09i: an own key at roster index 8 or higher
+			// came back with its bit off); the fresh mask must show exactly that signer
+			own := first
+			var ps []int
+			for i := range part {
+				if part[i] {
+					ps = append(ps, i)
+				}
+			}
+			own = ps[t.Intn("cfg.own", len(ps))]
+			if mask, err = bdn.NewMask(keyG, pubs, pubs[own]); err == nil {
+				wantOwn := make([]byte, (n+7)/8)
+				wantOwn[own/8] |= 1 << (own % 8)
+				if !bytes.Equal(mask.Mask(), wantOwn) || mask.CountEnabled() != 1 {
+					return viol("mask", "bdn/own-key-mask-wrong/"+c.name, "NewMask with the key of signer %d (of %d): mask %x, %d enabled", own, n, mask.Mask(), mask.CountEnabled())
+				}
 				err = setBits(mask)
 			}
 		case 2:
